@@ -239,6 +239,22 @@ func (obj *Flavor) inheritFlavor(cf *Flavor) {
 	}
 }
 
+// isInitable returns true if the keyword (with the leading colon) names an
+// instance variable that can be initialized with make-instance, either
+// because no initable variables were declared for the flavor (all are
+// initable), the flavor declared it, or an inherited flavor declared it.
+func (obj *Flavor) isInitable(key string) bool {
+	if len(obj.initable) == 0 || obj.initable[key] {
+		return true
+	}
+	for _, f := range obj.inherit {
+		if f.initable[key] {
+			return true
+		}
+	}
+	return false
+}
+
 func (obj *Flavor) calledFromLISP() bool {
 	_, file, _, ok := runtime.Caller(2)
 
